@@ -32,7 +32,7 @@ var c20Markers = []c20Marker{
 	{"id=related", "id", "related"},
 }
 
-var c20Tags = []string{"div", "section", "ul", "p"}
+var c20Tags = []string{"div", "section", "ul", "p", "img", "figure", "iframe"} // the last three: the marker sits on an embeddable element itself
 var c20Contents = []string{"links", "pc1", "pc3", "img"}
 var c20Places = []string{"before", "between", "after", "inside", "wrap"}
 
@@ -48,6 +48,9 @@ func c20Valid(s c20Sub) bool {
 		return false
 	}
 	if tag == "ul" && place == "wrap" {
+		return false
+	}
+	if (tag == "img" || tag == "figure" || tag == "iframe") && (content != "img" || place == "wrap") {
 		return false
 	}
 	return true
@@ -74,6 +77,14 @@ func c20Doc(base int, subs []c20Sub, variant string) string {
 		m := c20Markers[s.m]
 		open = "<" + tag + " " + m.attr + "=\"" + m.val + "\">"
 		close = "</" + tag + ">"
+		switch tag {
+		case "img":
+			return "<img " + m.attr + "=\"" + m.val + "\" src=\"http://example.com/img/" + t.U() + ".jpg\" width=\"400\" height=\"300\">", "", ""
+		case "figure":
+			return open, "<img src=\"http://example.com/img/" + t.U() + ".jpg\" width=\"400\" height=\"300\"><figcaption>" + t.W(4) + "</figcaption>", close
+		case "iframe":
+			return "<iframe " + m.attr + "=\"" + m.val + "\" src=\"http://www.youtube.com/embed/" + t.U() + "\" width=\"400\" height=\"300\">", "", "</iframe>"
+		}
 		item := func(x string) string {
 			if tag == "ul" {
 				return "<li>" + x + "</li>"
@@ -383,7 +394,7 @@ func init() {
 	eng.Register(&eng.Prop{
 		ID:        "C20",
 		DesignRef: "§5 C20",
-		Rule: "base pages of 120/499/500/501/900 words in total (article + 30-word trailer paragraph) x marked subtrees: marker {class=sidebar, id=footer, class=menu, class='banner x', role=navigation, role=dialog, class=Social-links, id=related} on {div, section, ul, p} x content {link cluster, one paragraph, three paragraphs, image} x placement {before, between, after the article, inside it, wrapping it}; all singles on all bases, each also on a page that starts with a paragraph and a data table, on a page with exempt anchors carrying the same marker values before and after the content, on a page with marked elements inside <b>/<i>, and (image content) as a lazy figure in a tree parsed with scripting disabled; pairs with a second subtree from a reduced set on bases 499/500/900 (quick) / every third first subtree with every second subtree, all on base 500 (thorough). " +
+		Rule: "base pages of 120/499/500/501/900 words in total (article + 30-word trailer paragraph) x marked subtrees: marker {class=sidebar, id=footer, class=menu, class='banner x', role=navigation, role=dialog, class=Social-links, id=related} on {div, section, ul, p, and - the marker on an embeddable element itself - img, figure, YouTube iframe} x content {link cluster, one paragraph, three paragraphs, image} x placement {before, between, after the article, inside it, wrapping it}; all singles on all bases, each also on a page that starts with a paragraph and a data table, on a page with exempt anchors carrying the same marker values before and after the content, on a page with marked elements inside <b>/<i>, and (image content) as a lazy figure in a tree parsed with scripting disabled; pairs with a second subtree from a reduced set on bases 499/500/900 (quick) / every third first subtree with every second subtree, all on base 500 (thorough). " +
 			"Oracle (metamorphic, 3 executions per case): w = WordCount of the page with marked subtrees deleted; w >= 500 => result == result of the deleted page, else == result of the page with markers renamed to a neutral value (Title, Text, HTML, WordCount, ContentImages). Non-trivial = a marked subtree holds >= 20 words.",
 		Enumerate: c20Enumerate,
 		Check:     c20Check,
